@@ -641,7 +641,7 @@ harnesses! {
     reserve_n3_c3_sym [6] => h_capacity(3, 3, tab_of(6), 0, false); //@ t=C13,C07 to=1200
     reserve_n0_c0 [4] => h_capacity(0, 0, tab_of(6), 0, false); //@ q=C13 t=C07 to=600
     reserve_n2_c3_collide_t0 [5] => h_capacity_t(2, 3, tab_of(0), 0, false, 0); //@ q=C13 t=C04,C07 to=900
-    reserve_n3_c3_nd [6] => h_capacity(3, 3, tab_of(6), 0, true); //@ t=C13,C07 to=2400
+    reserve_n3_c3_nd [6] => h_capacity(3, 3, tab_of(6), 0, true); // not registered: solver-chosen placement + tombstones on a reallocation runs out of memory (12 GB) - measured
     try_reserve_n3_c3_t0 [6] => h_capacity_t(3, 3, tab_of(6), 1, false, 0); //@ q=C13 t=C07,C04,C05,C06,C20 to=900
     try_reserve_n3_c3_t2 [6] => h_capacity_t(3, 3, tab_of(6), 1, false, 2); //@ q=C13 t=C07,C04,C05,C06,C20 to=900
     try_reserve_n3_c3_sym [6] => h_capacity(3, 3, tab_of(6), 1, false); //@ t=C13 to=1200
@@ -670,7 +670,7 @@ harnesses! {
     grow_insert_n3_c3_t2 [6] => h_grow_insert_t(3, 3, tab_of(6), false, 2); //@ q=C13,C07 t=C04,C05,C06,C20,C01,C02 to=1200
     grow_insert_n0_c0 [4] => h_grow_insert(0, 0, tab_of(6), false); //@ q=C13,C07,C20 to=600
     grow_insert_n3_c3_collide_t1 [6] => h_grow_insert_t(3, 3, tab_of(0), false, 1); //@ q=C04 t=C13,C07 to=1200
-    grow_insert_n3_c3_nd [6] => h_grow_insert(3, 3, tab_of(6), true); //@ t=C13,C07 to=2400
+    grow_insert_n3_c3_nd [6] => h_grow_insert(3, 3, tab_of(6), true); // not registered: does not finish in 40 min with solver-chosen placement - measured; scripted variants insert_evict_* cover the tombstone scenarios
     insert_evict_tomb_n3_c3 [6] => h_insert_evict_tomb(3, 3, tab_of(6), &[1, 3, 0, 1, 2], true); //@ q=C20 t=C03,C04 to=900
     insert_evict_notomb_n3_c3 [6] => h_insert_evict_tomb(3, 3, tab_of(6), &[0, 1], false); //@ q=C20 to=900
     insert_evict_reuse_tomb_n3_c3 [6] => h_insert_evict_tomb(3, 3, tab_of(6), &[1, 1], false); //@ q=C20 to=900
@@ -681,17 +681,19 @@ harnesses! {
     clone_n3_c3_t1 [6] => h_clone_sk(3, 3, tab_of(6), 0, 0, false, ES0 + (1 << 20), 1, -1); //@ q=C14 to=900
     clone_n3_drop_src [6] => h_clone(3, 3, tab_of(6), 7, 1, false); //@ q=C07,C06 t=C14 to=2400
     clone_n3_drop_src_t2 [6] => h_clone_sk(3, 3, tab_of(6), 7, 1, false, ES0 + (1 << 20), 2, -1); //@ q=C14 to=900
-    clone_n2_insert_clone [5] => h_clone(2, 3, tab_of(6), 1, 0, false); //@ t=C14,C06,C07 to=2400
+    clone_n2_insert_clone [5] => h_clone(2, 3, tab_of(6), 1, 0, false); // not registered: symbolic key + symbolic size insert on the clone does not finish in 40 min - measured; see clone_n2_insert_clone_k2
     clone_n2_remove_src [5] => h_clone(2, 3, tab_of(6), 2, 1, false); //@ t=C14,C06,C07 to=2400
     clone_n2_get_clone [5] => h_clone(2, 3, tab_of(6), 3, 0, false); //@ t=C14 to=2400
     clone_n2_get_clone_mru [5] => h_clone_sk(2, 3, tab_of(6), 3, 0, false, 64, 0, 0); //@ q=C14 to=900
     clone_n2_get_clone_lru [5] => h_clone_sk(2, 3, tab_of(6), 3, 0, false, 64, 0, 1); //@ q=C14 to=900
     clone_n2_remove_mru_clone [5] => h_clone_sk(2, 3, tab_of(6), 2, 0, false, 64, 0, 0); //@ q=C14 to=900
     clone_n2_remove_src_k1 [5] => h_clone_sk(2, 3, tab_of(6), 2, 1, false, 64, 0, 1); //@ q=C14,C06,C07 to=900
+    clone_n2_insert_clone_k2 [5] => h_clone_sk(2, 3, tab_of(6), 1, 0, false, ES0 + (1 << 20), 0, 2); //@ t=C14,C06 to=1800
+    clone_n2_mutate_clone_k0 [5] => h_clone_sk(2, 3, tab_of(6), 6, 0, false, ES0 + (1 << 20), 0, 0); //@ t=C14 to=1800
     clone_n2_setmax_src [5] => h_clone(2, 3, tab_of(6), 4, 1, false); //@ t=C14 to=1200
     clone_n2_clear_clone [5] => h_clone(2, 3, tab_of(6), 5, 0, false); //@ t=C14,C06 to=1200
-    clone_n2_mutate_clone [5] => h_clone(2, 3, tab_of(6), 6, 0, false); //@ t=C14 to=1200
-    clone_n3_c3_nd [6] => h_clone(3, 3, tab_of(6), 0, 0, true); //@ t=C14 to=2400
+    clone_n2_mutate_clone [5] => h_clone(2, 3, tab_of(6), 6, 0, false); // not registered: does not finish in 20 min with a symbolic key - measured; see clone_n2_mutate_clone_k0
+    clone_n3_c3_nd [6] => h_clone(3, 3, tab_of(6), 0, 0, true); // not registered: runs out of memory (12 GB) with solver-chosen placement - measured
     clone_n3_c3_exactly_full [6] => h_clone_s(3, 3, tab_of(6), 0, 0, false, 0, -1); //@ q=C19,C01 t=C14 to=2400
     clone_n3_c3_exactly_full_t1 [6] => h_clone_s(3, 3, tab_of(6), 0, 0, false, 0, 1); //@ q=C14 to=900
     clone_n2_c7_spare [5] => h_clone_s(2, 7, tab_of(6), 0, 0, false, 64, 0); //@ q=C14,C13 to=900
